@@ -475,6 +475,9 @@ def gen_multi(ctx):
             yield dict(part='multi', disp=disp, order=order)
         for v in ('base', 'js', 'pd'):
             yield dict(part='viewpred', disp=disp, validator=v)
+        for first in ('users', 'posts'):
+            for coerce in (True, False):
+                yield dict(part='samename', disp=disp, first=first, coerce=coerce)
 
 
 def run_multi(case, rec):
@@ -519,6 +522,53 @@ def run_multi(case, rec):
                 'conforming call refused' if accept else 'non-conforming call executed'), dict(case, method=name, arg=arg),
                 expected='executed' if accept else '-32602', observed=resp)
         obs.append(ok)
+    return tuple(obs)
+
+
+def run_samename(case, rec):
+    """two different methods that share their __name__ (users.get / posts.get, or the same method name on two views),
+    validated by one validator object: whatever the validator caches must not be keyed by the bare name"""
+    is_async = case['disp'] == 'async'
+    log = []
+    v = vpd.PydanticValidator(coerce=case['coerce'])
+    js = vjs.JsonSchemaValidator()
+
+    def mk(ann, default, tag):
+        ns = {'_log': log, 'A': ann}
+        exec('%sdef get(id: A, limit: A = %r):\n    _log.append((%r, id, limit))\n    return [%r, id]\n' % (
+            'async ' if is_async else '', default, tag, tag), ns)
+        return ns['get']
+    users_get = v.validate(mk(int, 10, 'users'))
+    posts_get = v.validate(mk(str, 'ten', 'posts'))
+    ujs = js.validate(schema={'type': 'object', 'properties': {'id': {'type': 'integer'}}})(mk(int, 10, 'ujs'))
+    pjs = js.validate(schema={'type': 'object', 'properties': {'id': {'type': 'string'}}})(mk(str, 'ten', 'pjs'))
+    d = pjrpc.server.AsyncDispatcher() if is_async else pjrpc.server.Dispatcher()
+    d.add(users_get, name='users.get')
+    d.add(posts_get, name='posts.get')
+    d.add(ujs, name='ujs.get')
+    d.add(pjs, name='pjs.get')
+    table = {
+        'users': [('users.get', [5], ('users', 5, 10)), ('users.get', ['x'], None), ('users.get', {'id': 7, 'limit': 2}, ('users', 7, 2))],
+        'posts': [('posts.get', ['x'], ('posts', 'x', 'ten')), ('posts.get', [5], None), ('posts.get', {'id': 'y', 'limit': 'z'}, ('posts', 'y', 'z'))],
+        'ujs': [('ujs.get', [5], ('ujs', 5, 10)), ('ujs.get', ['x'], None)],
+        'pjs': [('pjs.get', ['x'], ('pjs', 'x', 'ten')), ('pjs.get', [5], None)],
+    }
+    order = ['users', 'posts', 'ujs', 'pjs', 'users', 'posts'] if case['first'] == 'users' else ['posts', 'users', 'pjs', 'ujs', 'posts', 'users']
+    obs = []
+    for grp in order:
+        for name, params, seen in table[grp]:
+            del log[:]
+            r = dispatch(d, is_async, json.dumps({'jsonrpc': '2.0', 'id': 1, 'method': name, 'params': params}))
+            resp = json.loads(r[0])
+            rec.transitions += 1
+            code = resp.get('error', {}).get('code') if 'error' in resp else None
+            ok = (code is None and log == [seen]) if seen is not None else (code == -32602 and not log)
+            rec.outcomes['samename:%s' % ('ok' if ok else 'BAD')] += 1
+            if not ok:
+                rec.violation('C14:methods sharing a name under one validator object:%s' % (
+                    'conforming call refused / arguments changed' if seen is not None else 'non-conforming call executed'),
+                    dict(case, method=name, params=params), expected=seen if seen is not None else '-32602', observed=dict(response=resp, saw=list(log)))
+            obs.append(ok)
     return tuple(obs)
 
 
@@ -579,7 +629,7 @@ def gen_cases(ctx):
 def run_case(case, rec):
     from mc.core import Recorder
     r = Recorder()
-    obs = {'js': run_js, 'ctx': run_ctx, 'pd': run_pd, 'multi': run_multi, 'viewpred': run_viewpred}[case['part']](case, r)
+    obs = {'js': run_js, 'ctx': run_ctx, 'pd': run_pd, 'multi': run_multi, 'viewpred': run_viewpred, 'samename': run_samename}[case['part']](case, r)
     r.states += 1
     r.traces += 1
     r.nontrivial_n += 1
